@@ -30,7 +30,8 @@ function makeEnv(variant = 0) {
   const V = require('./vue');
   const hh = (type, props, children) => { if (props) { props = Object.assign({}, props); if (props.class && typeof props.class !== 'string') props.class = V.normalizeClass(props.class); if (props.style && typeof props.style === 'object') props.style = V.normalizeStyle(props.style); } return { __v_isVNode: true, type, props: props || null, children: children === undefined ? null : children, dirs: null }; };
   const globals = { u: 'uval' + variant, hu: fn('hu'), su: { id: 'suid' }, hh };
-  return { bound, globals, names, variant, gres, mv0: 'mv0' };
+  const modules = { lib: { Imp: comp('Imp'), Fragment: comp('lib.Fragment') } };
+  return { bound, globals, names, variant, gres, mv0: 'mv0', modules };
 }
 
 // ---------------------------------------------------------------- attribute alphabet
@@ -95,6 +96,11 @@ const HOSTS = {
   foo:       { open: 'foo', kind: 'component', type: () => 'resolved:foo' },
   iicon:     { open: 'i-icon', kind: 'component', type: () => 'resolved:i-icon' },
   iiconPat:  { open: 'i-icon', kind: 'element', pattern: true, type: () => 'tag:i-icon' },
+  // `I-icon` matches `^i-` only case-insensitively: with pattern list 3 it stays a component
+  IiconNoLeak: { open: 'I-icon', kind: 'component', pattern: 3, type: () => 'resolved:I-icon' },
+  iiconPat3: { open: 'i-icon', kind: 'element', pattern: 3, type: () => 'tag:i-icon' },
+  // a capitalised tag that a pattern matches is a custom element like any other
+  IonCardPat: { open: 'IonCard', kind: 'element', pattern: 4, type: () => 'tag:IonCard' },
   iiconPat2: { open: 'i-icon', kind: 'element', pattern: 2, type: () => 'tag:i-icon' },
   Comp:      { open: 'Comp', kind: 'component', type: () => 'comp:Comp' },
   Imported:  { open: 'Imp', kind: 'component', type: () => 'comp:Imp', imports: "import { Imp } from 'lib';" },
@@ -112,6 +118,8 @@ const HOSTS = {
   // the alias is one of several specifiers of the import (after / before other special names)
   FragmentAfterDc: { open: 'Fd', kind: 'element', type: () => 'Fragment', imports: "import { defineComponent, KeepAlive as Ka, Fragment as Fd, h as unusedH } from 'vue';" },
   FragmentTwoImports: { open: 'Ft', kind: 'element', type: () => 'Fragment', imports: "import { defineComponent } from 'vue';\nimport { ref as unusedRef2 } from 'vue';\nimport { Fragment as Ft } from 'vue';" },
+  // an export called Fragment of another module is just a component
+  ForeignFragment: { open: 'Fg', kind: 'component', type: () => 'comp:lib.Fragment', imports: "import { Fragment as Fg } from 'lib';" },
   FragmentStr: { open: 'Fs', kind: 'element', type: () => 'Fragment', imports: "import { \"Fragment\" as Fs } from 'vue';" },
   KeepAlive: { open: 'KeepAlive', kind: 'element', type: () => 'KeepAlive', imports: "import { KeepAlive } from 'vue';" },
   KeepAliveU:{ open: 'KeepAlive', kind: 'element', type: () => 'resolved:KeepAlive' },
@@ -151,7 +159,8 @@ function optsJson(o) {
   const j = {};
   for (const k of ['mergeProps', 'transformOn', 'optimize', 'enableObjectSlots', 'resolveType']) if (o[k] !== undefined) j[k] = o[k];
   // pattern: true = one matching pattern; 2 = only the second pattern of the list matches (and only through regex syntax)
-  if (o.pattern) j.customElementPatterns = o.pattern === 2 ? ['^zzz$', '-ic[o0]n$'] : ['^i-'];
+  // 3 = a pattern with an inline flag before one without (the flag must not leak); 4 = a pattern for capitalised names
+  if (o.pattern) j.customElementPatterns = o.pattern === 2 ? ['^zzz$', '-ic[o0]n$'] : o.pattern === 3 ? ['(?i)^zz-', '^i-'] : o.pattern === 4 ? ['^Ion[A-Z]'] : ['^i-'];
   if (o.pragma) j.pragma = o.pragma;
   return JSON.stringify(j);
 }
